@@ -163,6 +163,22 @@ Theorem C02_no_stuck_state :
 Proof. exact fprogress. Qed.
 Print Assumptions C02_no_stuck_state.
 
+(* The same for registry.Mounter destinations (MountFrom -> Mount per candidate -> mounted | skipped | fallback
+   upload), when content keys are injective (no two nodes with one digest): every phase of the mount path has a
+   next event too.  (No bound on the run length here: the acceptor allows any number of Mount candidates.) *)
+Theorem C02_no_stuck_state_mounter :
+  forall (g : graph) (c : cfg) (ext : bool) (d0 : list node) (rank : node -> nat),
+    (forall n x, In x (succ' g n) -> rank x < rank n) ->
+    1 <= c_K c -> c_root c < g_n g -> (forall x, In x (c_xroots c) -> x < g_n g) ->
+    (forall n x, n < g_n g -> In x (succ' g n) -> x < g_n g) ->
+    (ext = true -> forall n, ~ In (c_root c) (succ' g n)) ->
+    (forall a b, g_dkey g a = g_dkey g b -> a = b) ->
+    forall (tr : list fevent) (fs : fstate),
+    ext_ok g c ext d0 -> faccepts g c ext d0 tr = Some fs -> returned (fb fs) = None ->
+    exists e fs', is_fault (Ev e) = false /\ fstep g c ext fs (Ev e) = Some fs'.
+Proof. exact fprogress_m. Qed.
+Print Assumptions C02_no_stuck_state_mounter.
+
 (* Fault-free runs end well (the spec-level form of "re-running it without faults completes the graph"):
    a fault-free accepted trace has a bounded number of operation / callback / return events (potential
    function: every such event moves one node strictly forward through its phases), and from every state a
